@@ -144,279 +144,288 @@ func init() {
 			return err
 		}
 		res := &Result{Extra: map[string]any{}}
-		inA, err := startInstance(instOpts{})
-		if err != nil {
-			return err
-		}
-		defer inA.stop(true)
-		inB, err := startInstance(instOpts{})
-		if err != nil {
-			return err
-		}
-		defer inB.stop(true)
 		var mu sync.Mutex
 		evals, imports := 0, 0
 		nontriv := map[string]bool{}
 		textsSeen := map[string]int{}
-		parallel(len(cs)**concs, 8, func(job int) {
-			ci, k := job / *concs, job%*concs
-			c := cs[ci]
-			conc := &eConc{pfx: fmt.Sprintf("e%d-%d-%d-", *seed, ci, k), texts: map[string]string{}}
-			for ti, t := range []string{"T1", "T2", "T3"} {
-				conc.texts[t] = yamlTexts[(*seed*7+ci*3+k*11+ti*5)%len(yamlTexts)]
-			}
-			ncA, errA := inA.connect()
-			ncB, errB := inB.connect()
-			if errA != nil || errB != nil {
-				res.fail(Failure{Finding: "infra", What: "connect failed"})
-				return
-			}
-			defer ncA.Close()
-			defer ncB.Close()
-			caseInfo := func(extra map[string]any) map[string]any {
-				m := map[string]any{"tree": c.Tree, "texts": conc.texts, "prefix": conc.pfx}
-				for k, v := range extra {
-					m[k] = v
-				}
-				return m
-			}
-			// finding class from the *input*: does the tree carry a text YAML reads differently?
-			class := "export-import"
-			for _, n := range c.Tree {
-				for _, p := range append(append([]ePt{}, n.Pts...), n.Epts...) {
-					if v, ok := conc.texts[strings.TrimSuffix(p.Txt, " (import)")]; ok && yamlAmbiguous(v) {
-						class = "yaml-significant-text"
-					}
-				}
-			}
-			srcParent := conc.pfx + "src"
-			if err := client.SendNode(ncA, data.NodeEdge{ID: srcParent, Parent: inA.root.ID, Type: "group"}, ""); err != nil {
-				res.fail(Failure{Finding: "infra", What: "creating source parent: " + err.Error()})
-				return
-			}
-			// build the tree, parents first
-			byID := map[string]eNode{}
-			for _, n := range c.Tree {
-				byID[n.ID] = n
-			}
-			var order []string
-			var add func(id string)
-			done := map[string]bool{}
-			add = func(id string) {
-				if done[id] {
-					return
-				}
-				if p := byID[id].Parent; p != "" {
-					add(p)
-				}
-				done[id] = true
-				order = append(order, id)
-			}
-			for _, n := range c.Tree {
-				add(n.ID)
-			}
-			for _, id := range order {
-				n := byID[id]
-				ne := data.NodeEdge{ID: conc.id(n.ID), Type: n.Type, Parent: srcParent}
-				if n.Parent != "" {
-					ne.Parent = conc.id(n.Parent)
-				}
-				for _, p := range n.Pts {
-					ne.Points = append(ne.Points, conc.point(p, conc.id))
-				}
-				for _, p := range n.Epts {
-					ne.EdgePoints = append(ne.EdgePoints, conc.point(p, conc.id))
-				}
-				if err := client.SendNode(ncA, ne, ""); err != nil {
-					res.fail(Failure{Finding: "infra", What: "building the tree: " + err.Error(), Case: caseInfo(nil)})
-					return
-				}
-			}
-			yml, err := client.ExportNodes(ncA, conc.id("n1"))
-			mu.Lock()
-			evals++
-			for _, v := range conc.texts {
-				textsSeen[v]++
-			}
-			nontriv[fmt.Sprint(c.Tree)] = true
-			mu.Unlock()
+		// a fresh pair of instances for every 600 trees: thousands of subtrees below one root make
+		// every request slower
+		const perPair = 600
+		total := len(cs) * *concs
+		for lo := 0; lo < total; lo += perPair {
+			hi := min(lo+perPair, total)
+			inA, err := startInstance(instOpts{})
 			if err != nil {
-				res.fail(Failure{Finding: class, What: "ExportNodes failed: " + err.Error(), Case: caseInfo(nil)})
-				return
+				return err
 			}
-			type variant struct {
-				name     string
-				nc       *nats.Conn
-				rootID   string
-				preserve bool
-				exp      []eNode
+			inB, err := startInstance(instOpts{})
+			if err != nil {
+				inA.stop(true)
+				return err
 			}
-			for vi, v := range []variant{
-				{"same instance, new ids", ncA, inA.root.ID, false, c.ImpNew},
-				{"other instance, ids preserved", ncB, inB.root.ID, true, c.ImpKeep},
-				{"other instance, new ids", ncB, inB.root.ID, false, c.ImpNew},
-			} {
-				dst := fmt.Sprintf("%sdst%d", conc.pfx, vi)
-				if err := client.SendNode(v.nc, data.NodeEdge{ID: dst, Parent: v.rootID, Type: "group"}, ""); err != nil {
-					res.fail(Failure{Finding: "infra", What: "creating import parent: " + err.Error()})
+			parallel(hi-lo, 8, func(job int) {
+				job += lo
+				ci, k := job / *concs, job%*concs
+				c := cs[ci]
+				conc := &eConc{pfx: fmt.Sprintf("e%d-%d-%d-", *seed, ci, k), texts: map[string]string{}}
+				for ti, t := range []string{"T1", "T2", "T3"} {
+					conc.texts[t] = yamlTexts[(*seed*7+ci*3+k*11+ti*5)%len(yamlTexts)]
+				}
+				ncA, errA := inA.connect()
+				ncB, errB := inB.connect()
+				if errA != nil || errB != nil {
+					res.fail(Failure{Finding: "infra", What: "connect failed"})
 					return
 				}
-				err := client.ImportNodes(v.nc, dst, yml, "", v.preserve)
+				defer ncA.Close()
+				defer ncB.Close()
+				caseInfo := func(extra map[string]any) map[string]any {
+					m := map[string]any{"tree": c.Tree, "texts": conc.texts, "prefix": conc.pfx}
+					for k, v := range extra {
+						m[k] = v
+					}
+					return m
+				}
+				// finding class from the *input*: does the tree carry a text YAML reads differently?
+				class := "export-import"
+				for _, n := range c.Tree {
+					for _, p := range append(append([]ePt{}, n.Pts...), n.Epts...) {
+						if v, ok := conc.texts[strings.TrimSuffix(p.Txt, " (import)")]; ok && yamlAmbiguous(v) {
+							class = "yaml-significant-text"
+						}
+					}
+				}
+				srcParent := conc.pfx + "src"
+				if err := client.SendNode(ncA, data.NodeEdge{ID: srcParent, Parent: inA.root.ID, Type: "group"}, ""); err != nil {
+					res.fail(Failure{Finding: "infra", What: "creating source parent: " + err.Error()})
+					return
+				}
+				// build the tree, parents first
+				byID := map[string]eNode{}
+				for _, n := range c.Tree {
+					byID[n.ID] = n
+				}
+				var order []string
+				var add func(id string)
+				done := map[string]bool{}
+				add = func(id string) {
+					if done[id] {
+						return
+					}
+					if p := byID[id].Parent; p != "" {
+						add(p)
+					}
+					done[id] = true
+					order = append(order, id)
+				}
+				for _, n := range c.Tree {
+					add(n.ID)
+				}
+				for _, id := range order {
+					n := byID[id]
+					ne := data.NodeEdge{ID: conc.id(n.ID), Type: n.Type, Parent: srcParent}
+					if n.Parent != "" {
+						ne.Parent = conc.id(n.Parent)
+					}
+					for _, p := range n.Pts {
+						ne.Points = append(ne.Points, conc.point(p, conc.id))
+					}
+					for _, p := range n.Epts {
+						ne.EdgePoints = append(ne.EdgePoints, conc.point(p, conc.id))
+					}
+					if err := client.SendNode(ncA, ne, ""); err != nil {
+						res.fail(Failure{Finding: "infra", What: "building the tree: " + err.Error(), Case: caseInfo(nil)})
+						return
+					}
+				}
+				yml, err := client.ExportNodes(ncA, conc.id("n1"))
 				mu.Lock()
-				imports++
 				evals++
+				for _, v := range conc.texts {
+					textsSeen[v]++
+				}
+				nontriv[fmt.Sprint(c.Tree)] = true
 				mu.Unlock()
-				ci2 := caseInfo(map[string]any{"variant": v.name, "yaml": string(yml)})
 				if err != nil {
-					res.fail(Failure{Finding: class, What: "ImportNodes failed: " + err.Error(), Case: ci2})
-					continue
+					res.fail(Failure{Finding: class, What: "ExportNodes failed: " + err.Error(), Case: caseInfo(nil)})
+					return
 				}
-				var got []data.NodeEdge
-				if err := walkAll(v.nc, dst, &got); err != nil {
-					res.fail(Failure{Finding: class, What: "walking the imported subtree failed: " + err.Error(), Case: ci2})
-					continue
+				type variant struct {
+					name     string
+					nc       *nats.Conn
+					rootID   string
+					preserve bool
+					exp      []eNode
 				}
-				// match imported nodes to predicted ones through the vname point
-				gotByName := map[string]data.NodeEdge{}
-				dup := false
-				for _, g := range got {
-					name, _ := g.Points.Text("vname", "")
-					if _, ok := gotByName[name]; ok {
-						dup = true
+				for vi, v := range []variant{
+					{"same instance, new ids", ncA, inA.root.ID, false, c.ImpNew},
+					{"other instance, ids preserved", ncB, inB.root.ID, true, c.ImpKeep},
+					{"other instance, new ids", ncB, inB.root.ID, false, c.ImpNew},
+				} {
+					dst := fmt.Sprintf("%sdst%d", conc.pfx, vi)
+					if err := client.SendNode(v.nc, data.NodeEdge{ID: dst, Parent: v.rootID, Type: "group"}, ""); err != nil {
+						res.fail(Failure{Finding: "infra", What: "creating import parent: " + err.Error()})
+						return
 					}
-					gotByName[name] = g
-				}
-				if dup || len(got) != len(v.exp) {
-					var names []string
+					err := client.ImportNodes(v.nc, dst, yml, "", v.preserve)
+					mu.Lock()
+					imports++
+					evals++
+					mu.Unlock()
+					ci2 := caseInfo(map[string]any{"variant": v.name, "yaml": string(yml)})
+					if err != nil {
+						res.fail(Failure{Finding: class, What: "ImportNodes failed: " + err.Error(), Case: ci2})
+						continue
+					}
+					var got []data.NodeEdge
+					if err := walkAll(v.nc, dst, &got); err != nil {
+						res.fail(Failure{Finding: class, What: "walking the imported subtree failed: " + err.Error(), Case: ci2})
+						continue
+					}
+					// match imported nodes to predicted ones through the vname point
+					gotByName := map[string]data.NodeEdge{}
+					dup := false
 					for _, g := range got {
-						n, _ := g.Points.Text("vname", "")
-						names = append(names, n)
-					}
-					sort.Strings(names)
-					res.fail(Failure{Finding: class, What: fmt.Sprintf("imported subtree has %d nodes, specification predicts %d (deleted nodes must not be exported)", len(got), len(v.exp)),
-						Case: ci2, Expected: c.Live, Observed: names})
-					continue
-				}
-				// id map: predicted id -> real id
-				realID := map[string]string{"np": dst}
-				bad := ""
-				for _, e := range v.exp {
-					var name string
-					for _, p := range e.Pts {
-						if p.Type == "vname" {
-							name = p.Txt
+						name, _ := g.Points.Text("vname", "")
+						if _, ok := gotByName[name]; ok {
+							dup = true
 						}
+						gotByName[name] = g
 					}
-					g, ok := gotByName[name]
-					if !ok {
-						bad = "node " + name + " missing in the imported subtree"
-						break
-					}
-					realID[e.ID] = g.ID
-				}
-				if bad == "" {
-					seen := map[string]bool{}
-					for pid, rid := range realID {
-						if pid == "np" {
-							continue
+					if dup || len(got) != len(v.exp) {
+						var names []string
+						for _, g := range got {
+							n, _ := g.Points.Text("vname", "")
+							names = append(names, n)
 						}
-						if seen[rid] {
-							bad = "two nodes were given the same id"
-						}
-						seen[rid] = true
-						if v.preserve && rid != conc.id(pid) {
-							bad = "id of " + pid + " not preserved"
-						}
-						if !v.preserve && strings.HasPrefix(rid, conc.pfx) {
-							bad = "id of " + pid + " was not replaced"
-						}
+						sort.Strings(names)
+						res.fail(Failure{Finding: class, What: fmt.Sprintf("imported subtree has %d nodes, specification predicts %d (deleted nodes must not be exported)", len(got), len(v.exp)),
+							Case: ci2, Expected: c.Live, Observed: names})
+						continue
 					}
-				}
-				if bad != "" {
-					res.fail(Failure{Finding: class, What: bad, Case: ci2})
-					continue
-				}
-				// references to ids outside the tree: consistent replacement = some id that is not the old one
-				extReal := map[string]string{}
-				idOf := func(pred string) string {
-					if r, ok := realID[pred]; ok {
-						return r
-					}
-					if v.preserve {
-						return conc.id(pred)
-					}
-					return "\x00ext:" + pred
-				}
-				for _, e := range v.exp {
-					g := gotByName[func() string {
+					// id map: predicted id -> real id
+					realID := map[string]string{"np": dst}
+					bad := ""
+					for _, e := range v.exp {
+						var name string
 						for _, p := range e.Pts {
 							if p.Type == "vname" {
-								return p.Txt
+								name = p.Txt
 							}
 						}
-						return ""
-					}()]
-					if g.Type != e.Type || g.Parent != realID[e.Parent] {
-						res.fail(Failure{Finding: class, What: fmt.Sprintf("node %s: type/parent %s/%s, predicted %s/%s", e.ID, g.Type, g.Parent, e.Type, realID[e.Parent]), Case: ci2})
-						bad = "x"
-						break
+						g, ok := gotByName[name]
+						if !ok {
+							bad = "node " + name + " missing in the imported subtree"
+							break
+						}
+						realID[e.ID] = g.ID
 					}
-					cmp := func(kind string, exp []ePt, gotPts data.Points) string {
-						em := map[eKey]data.Point{}
-						for _, p := range exp {
-							if p.Type == "tombstone" && p.Val == 0 {
+					if bad == "" {
+						seen := map[string]bool{}
+						for pid, rid := range realID {
+							if pid == "np" {
 								continue
 							}
-							dp := conc.point(p, idOf)
-							k := dp.Key
-							if k == "" {
-								k = "0"
+							if seen[rid] {
+								bad = "two nodes were given the same id"
 							}
-							em[eKey{dp.Type, k}] = dp
-						}
-						gm := ptsMap(gotPts, true)
-						if len(em) != len(gm) {
-							return fmt.Sprintf("%s of %s: %d points, predicted %d", kind, e.ID, len(gm), len(em))
-						}
-						for k, ep := range em {
-							gp, ok := gm[k]
-							if !ok {
-								return fmt.Sprintf("%s of %s: point (%s,%s) missing", kind, e.ID, k.typ, k.key)
+							seen[rid] = true
+							if v.preserve && rid != conc.id(pid) {
+								bad = "id of " + pid + " not preserved"
 							}
-							if strings.HasPrefix(ep.Text, "\x00ext:") {
-								old := conc.id(strings.TrimPrefix(ep.Text, "\x00ext:"))
-								if gp.Text == old || gp.Text == "" {
-									return fmt.Sprintf("%s of %s: reference to an id outside the tree was not replaced", kind, e.ID)
-								}
-								if prev, ok := extReal[old]; ok && prev != gp.Text {
-									return fmt.Sprintf("%s of %s: one outside id replaced by two different ids", kind, e.ID)
-								}
-								extReal[old] = gp.Text
-								ep.Text = gp.Text
-							}
-							if math.Float64bits(gp.Value) != math.Float64bits(ep.Value) || gp.Text != ep.Text || gp.Tombstone != ep.Tombstone {
-								return fmt.Sprintf("%s of %s: point (%s,%s) is value=%v text=%q tombstone=%d, predicted value=%v text=%q tombstone=%d",
-									kind, e.ID, k.typ, k.key, gp.Value, gp.Text, gp.Tombstone, ep.Value, ep.Text, ep.Tombstone)
+							if !v.preserve && strings.HasPrefix(rid, conc.pfx) {
+								bad = "id of " + pid + " was not replaced"
 							}
 						}
-						return ""
 					}
-					if d := cmp("points", e.Pts, g.Points); d != "" {
-						res.fail(Failure{Finding: class, What: d, Case: ci2})
-						bad = "x"
-						break
+					if bad != "" {
+						res.fail(Failure{Finding: class, What: bad, Case: ci2})
+						continue
 					}
-					if d := cmp("edge points", e.Epts, g.EdgePoints); d != "" {
-						res.fail(Failure{Finding: class, What: d, Case: ci2})
-						bad = "x"
-						break
+					// references to ids outside the tree: consistent replacement = some id that is not the old one
+					extReal := map[string]string{}
+					idOf := func(pred string) string {
+						if r, ok := realID[pred]; ok {
+							return r
+						}
+						if v.preserve {
+							return conc.id(pred)
+						}
+						return "\x00ext:" + pred
+					}
+					for _, e := range v.exp {
+						g := gotByName[func() string {
+							for _, p := range e.Pts {
+								if p.Type == "vname" {
+									return p.Txt
+								}
+							}
+							return ""
+						}()]
+						if g.Type != e.Type || g.Parent != realID[e.Parent] {
+							res.fail(Failure{Finding: class, What: fmt.Sprintf("node %s: type/parent %s/%s, predicted %s/%s", e.ID, g.Type, g.Parent, e.Type, realID[e.Parent]), Case: ci2})
+							bad = "x"
+							break
+						}
+						cmp := func(kind string, exp []ePt, gotPts data.Points) string {
+							em := map[eKey]data.Point{}
+							for _, p := range exp {
+								if p.Type == "tombstone" && p.Val == 0 {
+									continue
+								}
+								dp := conc.point(p, idOf)
+								k := dp.Key
+								if k == "" {
+									k = "0"
+								}
+								em[eKey{dp.Type, k}] = dp
+							}
+							gm := ptsMap(gotPts, true)
+							if len(em) != len(gm) {
+								return fmt.Sprintf("%s of %s: %d points, predicted %d", kind, e.ID, len(gm), len(em))
+							}
+							for k, ep := range em {
+								gp, ok := gm[k]
+								if !ok {
+									return fmt.Sprintf("%s of %s: point (%s,%s) missing", kind, e.ID, k.typ, k.key)
+								}
+								if strings.HasPrefix(ep.Text, "\x00ext:") {
+									old := conc.id(strings.TrimPrefix(ep.Text, "\x00ext:"))
+									if gp.Text == old || gp.Text == "" {
+										return fmt.Sprintf("%s of %s: reference to an id outside the tree was not replaced", kind, e.ID)
+									}
+									if prev, ok := extReal[old]; ok && prev != gp.Text {
+										return fmt.Sprintf("%s of %s: one outside id replaced by two different ids", kind, e.ID)
+									}
+									extReal[old] = gp.Text
+									ep.Text = gp.Text
+								}
+								if math.Float64bits(gp.Value) != math.Float64bits(ep.Value) || gp.Text != ep.Text || gp.Tombstone != ep.Tombstone {
+									return fmt.Sprintf("%s of %s: point (%s,%s) is value=%v text=%q tombstone=%d, predicted value=%v text=%q tombstone=%d",
+										kind, e.ID, k.typ, k.key, gp.Value, gp.Text, gp.Tombstone, ep.Value, ep.Text, ep.Tombstone)
+								}
+							}
+							return ""
+						}
+						if d := cmp("points", e.Pts, g.Points); d != "" {
+							res.fail(Failure{Finding: class, What: d, Case: ci2})
+							bad = "x"
+							break
+						}
+						if d := cmp("edge points", e.Epts, g.EdgePoints); d != "" {
+							res.fail(Failure{Finding: class, What: d, Case: ci2})
+							bad = "x"
+							break
+						}
 					}
 				}
-			}
-			if job%37 == 0 {
-				res.sample(map[string]any{"tree": c.Tree, "texts": conc.texts, "predicted_import_new_ids": c.ImpNew}, 5)
-			}
-		})
+				if job%37 == 0 {
+					res.sample(map[string]any{"tree": c.Tree, "texts": conc.texts, "predicted_import_new_ids": c.ImpNew}, 5)
+				}
+			})
+			inA.stop(true)
+			inB.stop(true)
+		}
 		res.Evaluations = evals
 		res.Traces = imports
 		res.DistinctNontrivial = len(nontriv)
